@@ -152,11 +152,27 @@ func c15SyncSites(p *pkgInfo) []c15Site {
 		}
 		return true
 	})
+	// `if err := rows.Err(); err != nil { …; return err }` after the loop
 	errChecked := func(rows string, after token.Pos) bool {
 		found := false
 		ast.Inspect(fd.Body, func(n ast.Node) bool {
-			if r, m, ce, ok := c15RecvCall(n); ok && r == rows && m == "Err" && ce.Pos() > after {
-				// must be tested: `if err := rows.Err(); err != nil { return err }`
+			ifs, ok := n.(*ast.IfStmt)
+			if !ok || ifs.Pos() < after || ifs.Init == nil || len(ifs.Body.List) == 0 {
+				return true
+			}
+			as, ok := ifs.Init.(*ast.AssignStmt)
+			if !ok || len(as.Rhs) != 1 || len(as.Lhs) != 1 {
+				return true
+			}
+			r, m, _, ok := c15RecvCall(as.Rhs[0])
+			if !ok || r != rows || m != "Err" {
+				return true
+			}
+			be, ok := ifs.Cond.(*ast.BinaryExpr)
+			if !ok || be.Op != token.NEQ || p.str(be.X) != p.str(as.Lhs[0]) || p.str(be.Y) != "nil" {
+				return true
+			}
+			if _, ok := ifs.Body.List[len(ifs.Body.List)-1].(*ast.ReturnStmt); ok {
 				found = true
 			}
 			return true
